@@ -416,7 +416,7 @@ func TestVerifReplay(t *testing.T) {
 	ovf := filepath.Join(work, "overlay.json")
 	os.WriteFile(ovf, ovj, 0o644)
 	abs, _ := filepath.Abs(path)
-	cmd := exec.Command("go", "test", "-vet=off", "-count=1", "-overlay", ovf, "-run", "^TestVerifReplay$", "-timeout", "120s", "./"+rp.Dir)
+	cmd := exec.Command("go", "test", "-v", "-vet=off", "-count=1", "-overlay", ovf, "-run", "^TestVerifReplay$", "-timeout", "120s", "./"+rp.Dir)
 	cmd.Dir = repoDir
 	cmd.Env = append(goEnv(), "VERIF_REPLAY="+abs, "VERIF_WORK="+work)
 	var buf bytes.Buffer
@@ -655,6 +655,13 @@ func cmdCheck(prop, tier string, only *regexp.Regexp) int {
 	expectSeen := map[string]bool{}
 	reachedBy := map[string]map[string]int{}
 	cexN := 0
+	type groupState struct {
+		total, attempts int
+		confirmed       bool
+		failedReplays   []string
+	}
+	groups := map[string]*groupState{}
+	var groupOrder []string
 	for _, r := range results {
 		hm := r.job.meta
 		agg.paths += r.stats.Paths
@@ -705,12 +712,28 @@ func cmdCheck(prop, tier string, only *regexp.Regexp) int {
 			continue
 		}
 		for _, v := range r.violations {
+			g := hm.Name + "|" + v.Kind + "|" + v.Label
+			known := matchFinding(findings, prop, hm, v)
+			if known != nil {
+				g += "|known:" + known.What
+			}
+			st := groups[g]
+			if st == nil {
+				st = &groupState{}
+				groups[g] = st
+				groupOrder = append(groupOrder, g)
+			}
+			st.total++
+			if st.confirmed || st.attempts >= 5 {
+				continue
+			}
 			cexN++
 			path, err := writeReplay(prop, hm, v, cexN)
 			if err != nil {
 				inconclusive = append(inconclusive, "cannot write replay: "+err.Error())
 				continue
 			}
+			st.attempts++
 			ro, err := nativeReplay(path)
 			replayed++
 			if err != nil || ro.BuildError {
@@ -721,20 +744,31 @@ func cmdCheck(prop, tier string, only *regexp.Regexp) int {
 				continue
 			}
 			if !ro.Reproduced {
-				inconclusive = append(inconclusive, fmt.Sprintf("ENGINE-DISCREPANCY %s: counterexample %s (%s %s) does not reproduce natively", hm.Name, path, v.Kind, v.Label))
-				if verbose {
-					fmt.Fprintln(os.Stderr, ro.Output)
-				}
+				st.failedReplays = append(st.failedReplays, path)
 				continue
 			}
-			if f := matchFinding(findings, prop, hm, v); f != nil {
-				knownLines = append(knownLines, fmt.Sprintf("KNOWN-FINDING: property=%s %s", prop, f.What))
+			st.confirmed = true
+			if known != nil {
+				knownLines = append(knownLines, fmt.Sprintf("KNOWN-FINDING: property=%s %s", prop, known.What))
 				os.Remove(path)
 				continue
 			}
 			nViol++
 			violLines = append(violLines, fmt.Sprintf("VIOLATION property=%s replay=%s", prop, path))
 			notes = append(notes, fmt.Sprintf("%s %s %s choices=%v values=%v %s", hm.Name, v.Kind, v.Label, v.Choices, v.Model, v.Msg))
+		}
+	}
+	for _, g := range groupOrder {
+		st := groups[g]
+		if !st.confirmed {
+			inconclusive = append(inconclusive, fmt.Sprintf("ENGINE-DISCREPANCY %s: %d counterexample(s), none of %d replays reproduced natively (e.g. %v)", g, st.total, st.attempts, st.failedReplays))
+		} else {
+			for _, p := range st.failedReplays {
+				os.Remove(p)
+			}
+			if st.total > 1 {
+				notes = append(notes, fmt.Sprintf("%s: %d counterexamples with distinct shapes share this label; one was replayed and confirmed", g, st.total))
+			}
 		}
 	}
 	// vacuity: every harness must have reached at least one Reach label; twins must be violated
